@@ -106,9 +106,10 @@ def prefix_ops(g, target):
             yield g.git("stash", "pop", "-q", target=True)
     elif target == "stash_pop_two":
         # two stash entries: an older one with AI work, a newer one with a person's work; the newer one is popped
-        yield g.ai_edit(path=path, kinds=["insert", "append"], pos="top")
+        # (both edits at the top of the same file, so that the line numbers of the two stash entries overlap)
+        yield g.ai_edit(path=path, kinds=["insert"], pos="top")
         yield g.git("stash", "push", "-q")
-        yield g.human_edit(path=path, kinds=["insert", "append"], pos="top", pre_ckpt=True, max_block=4)
+        yield g.human_edit(path=path, kinds=["insert"], pos="top", pre_ckpt=True, max_block=4)
         yield g.git("stash", "push", "-q")
         yield g.human_edit(new_file=True)
         yield from g.commit_all()
@@ -218,13 +219,15 @@ class C07(Prop):
     quick_budget_s, thorough_budget_s = 170, 1800
     rule = ("one task = one sampled scenario (prefix of edits/checkpoints/commits + one wrapped target command of a "
             "hooked kind: commit, partial commit, amend, rebase, rebase --continue after a conflict, cherry-pick, reset "
-            "soft/mixed/hard, stash push/pop, merge --squash, checkout -b, switch, push / fetch / pull --ff-only / pull "
-            "--rebase against a bare remote) x one fault family. Within the task "
+            "soft/mixed/hard, stash push/pop (also with two stash entries), merge --squash, checkout -b, switch, push / fetch / "
+            "pull --ff-only / pull --rebase against a bare remote, a cherry-pick after an aborted one) x one fault family. Within the task "
             "EVERY internal git call index of the target command is enumerated for each of fail(128), fail(1), empty "
             "stdout, half stdout, kill-the-wrapper; EVERY journal point reached for crash / torn write / EIO / ENOSPC; "
             "EVERY file under .git/ai for truncate-half / truncate-0 / byte flip / delete / garbage / duplicate tail / "
-            "replaced-by-directory. One fault per branch run, each from a snapshot, with plain git run from the same "
-            "snapshot as reference; then fault-free follow-up ops (human edit, add, commit) in both worlds. evaluations = "
+            "replaced-by-directory / an appended line that is not UTF-8. One fault per branch run, each from a snapshot, with plain git run from the same "
+            "snapshot as reference; blame one-sided, and the note of the commit the target produced may only list lines it "
+            "added (whenever the fault-free run's note does); then fault-free follow-up ops (human edit, add, commit) in "
+            "both worlds. evaluations = "
             "branch runs; distinct = (target kind, fault kind, normalised failing call / point / file, outcome class); "
             "non-trivial = the fault actually fired inside the target command")
     assumptions = ["scenarios are sampled, faults within a scenario are enumerated exhaustively",
@@ -417,7 +420,16 @@ class C07(Prop):
                     for kind in ("truncate_tail", "garbage", "dir"):
                         faults.append({"family": "corrupt", "file": f, "kind": kind, "before_op": mid})
         if tier == "quick" and len(faults) > 60:
-            faults = rng.sample(faults, 60)
+            # quick tier: every internal call (journal point, file) fails at least once - the plain failure of each
+            # call is kept - and the rest of the budget is a sample of the other kinds
+            first = {}
+            for f in faults:
+                key = (f["family"], f.get("idx"), f.get("point"), f.get("occ"), f.get("file"), f.get("before_op"))
+                if key not in first and f["kind"] in ("fail:128", "crash", "truncate_half", "truncate_tail"):
+                    first[key] = f
+            keep = list(first.values())[:60]
+            rest = [f for f in faults if f not in keep]
+            faults = keep + rng.sample(rest, max(0, min(len(rest), 60 - len(keep))))
         evals = 1
         viol = None
         from .. import known as known_mod
